@@ -43,6 +43,21 @@ func (h *Host) GetProposal(_ context.Context, k uint64) (*gpbft.SupplementalData
 			return nil, nil, fmt.Errorf("diverging base for instance %d", k)
 		}
 		ch = w.inputFor(h.m, info)
+		if k == 0 && h.m.Idx == w.cfg.Deviant {
+			// this member's view of the base differs from everybody else's
+			tb := *info.Base
+			switch w.cfg.DeviantKind {
+			case 0:
+				tb.Commitments[0] ^= 0x5a
+			case 1:
+				tb.PowerTable = gpbft.MakeCid([]byte("deviating-power-table"))
+			default:
+				tb.Key = append(append([]byte(nil), tb.Key...), '\'')
+			}
+			ch = &gpbft.ECChain{TipSets: append([]*gpbft.TipSet{&tb}, ch.TipSets[1:]...)}
+			h.m.deviant = true
+			w.r.Fault("member_with_deviating_base")
+		}
 		h.m.inputs[k] = ch
 	}
 	supp := info.Supp
